@@ -23,10 +23,31 @@ class Option:
 
 def registered_options(mainf):
     opts = {}
+    # locals that are another name of the registration method (add = cmd.add_argument) and keyword bundles
+    # handed on with ** (multi = dict(action='append'))
+    alias = set()
+    bundles = {}
+    for st in walk_no_nested(mainf.node):
+        if isinstance(st, ast.Assign) and len(st.targets) == 1 and isinstance(st.targets[0], ast.Name):
+            v = st.value
+            if isinstance(v, ast.Attribute) and v.attr == 'add_argument':
+                alias.add(st.targets[0].id)
+            elif isinstance(v, ast.Call) and isinstance(v.func, ast.Name) and v.func.id == 'dict' and not v.args and \
+                    all(k.arg is not None for k in v.keywords):
+                bundles[st.targets[0].id] = {k.arg: k.value for k in v.keywords}
+            elif isinstance(v, ast.Dict) and all(isinstance(k, ast.Constant) and isinstance(k.value, str) for k in v.keys):
+                bundles[st.targets[0].id] = {k.value: x for k, x in zip(v.keys, v.values)}
     for c in walk_no_nested(mainf.node):
-        if isinstance(c, ast.Call) and isinstance(c.func, ast.Attribute) and c.func.attr == 'add_argument':
+        if isinstance(c, ast.Call) and ((isinstance(c.func, ast.Attribute) and c.func.attr == 'add_argument') or
+                                        (isinstance(c.func, ast.Name) and c.func.id in alias)):
             strings = [a.value for a in c.args if isinstance(a, ast.Constant) and isinstance(a.value, str)]
-            kw = {k.arg: k.value for k in c.keywords}
+            if not strings:
+                continue
+            kw = {}
+            for k in c.keywords:
+                if k.arg is None and isinstance(k.value, ast.Name) and k.value.id in bundles:
+                    kw.update(bundles[k.value.id])
+            kw.update({k.arg: k.value for k in c.keywords if k.arg is not None})
             long_ = [s for s in strings if s.startswith('--')]
             dest = (long_[0] if long_ else strings[0]).lstrip('-').replace('-', '_')
             typ = norm(kw['type']) if 'type' in kw else None
